@@ -19,7 +19,7 @@ from pydrobert.speech import compute as _compute
 PROPERTY = "C04"
 LEVEL = "exploration"
 TIERS = {
-    "quick": {"runs": 16000, "budget": 75, "selftest": 32, "shrink_budget": 400},
+    "quick": {"runs": 70000, "budget": 70, "selftest": 64, "shrink_budget": 400},
     "thorough": {"runs": 400000, "budget": 1500, "selftest": 2000, "shrink_budget": 1500},
 }
 RULE = (
